@@ -57,27 +57,16 @@ def indexMiss (st : Hpack.DecState) (b : Bytes) : Bool :=
     else if c ≥ 32 then false
     else c % 16 != 0 && look 4
 
-/-- the dynamic table size updates at the head of `b` that `nextField` applies before it reaches the
-representation that fails: the Go decoder has changed its table by then, error or not -/
-def skipUpdates : Nat → Hpack.DecState → Bytes → Hpack.DecState × Bytes
-  | 0, st, b => (st, b)
-  | fuel + 1, st, b =>
-    match b with
-    | [] => (st, b)
-    | c :: _ =>
-      if 32 ≤ c && c < 64 then
-        match Hpack.readInt 5 b with
-        | .ok n r => if n > st.limit then (st, b) else skipUpdates fuel { st with maxSize := n, dyn := Hpack.evict st.dyn n } r
-        | _ => (st, b)
-      else (st, b)
-
-def nextField (st : Hpack.DecState) (b : Bytes) : FieldRes :=
-  match Hpack.Dec.next st true 0 b with
+/-- one field of a response header block: `dec.nextField(hf, true, nf, b)`, `nf` the number of fields of the block
+decoded so far (a dynamic table size update is in its place only while that is 0). When the call fails the
+decoder has applied the updates it accepted before the representation that fails (`Hpack.Dec.skipUpdates`). -/
+def nextField (st : Hpack.DecState) (nf : Nat) (b : Bytes) : FieldRes :=
+  match Hpack.Dec.next st true nf b with
   | .ok st' (some f) rest => .field st' f.name f.value rest
   | .ok st' none _ => .done st'
-  | .needMore => .err (skipUpdates b.length st b).1
+  | .needMore => .err (Hpack.Dec.skipUpdates st true nf b).1
   | .err =>
-    let (st', b') := skipUpdates b.length st b
+    let (st', b') := Hpack.Dec.skipUpdates st true nf b
     if indexMiss st' b' then .idxMiss st' else .err st'
 
 /-- a server frame as the client's read loop sees it -/
